@@ -56,6 +56,33 @@ void chacha20_enc_dec_ks_sse(const void *src, void *dst, const uint64_t length, 
                 ((uint8_t *) dst)[i] = ((const uint8_t *) src)[i] ^ __CPROVER_uninterpreted_ks(ks_pos + i);
         ks_pos += length;
 }
+#ifdef JOBPATH
+/* ghost kernels of the single-job path: whole-message keystream XOR from position 0, Poly1305 key = first 32 keystream bytes */
+IMB_JOB *submit_job_chacha20_poly_enc_sse(IMB_JOB *job, void *poly_key)
+{
+        const uint8_t *s = job->src + job->cipher_start_src_offset_in_bytes;
+        for (uint64_t i = 0; i < job->msg_len_to_cipher_in_bytes && i < MAXMSG + 1; i++)
+                job->dst[i] = s[i] ^ __CPROVER_uninterpreted_ks(i);
+        ks_pos += job->msg_len_to_cipher_in_bytes;
+        for (int i = 0; i < 32; i++) ((uint8_t *) poly_key)[i] = poly_key_tag[i];
+        return job;
+}
+static uint8_t ghost_ks_base[1];
+void gen_keystr_poly_key_sse(const void *key, const void *iv, const uint64_t len, void *ks)
+{
+        (void) key; (void) iv; (void) len;
+        for (int i = 0; i < 32; i++) ((uint8_t *) ks)[i] = poly_key_tag[i];
+}
+IMB_JOB *submit_job_chacha20_poly_dec_sse(IMB_JOB *job, const void *ks, const uint64_t len_to_xor)
+{
+        (void) ks; (void) len_to_xor;   /* the pre-generated keystream is the same uninterpreted function of the position */
+        const uint8_t *s = job->src + job->cipher_start_src_offset_in_bytes;
+        for (uint64_t i = 0; i < job->msg_len_to_cipher_in_bytes && i < MAXMSG + 1; i++)
+                job->dst[i] = s[i] ^ __CPROVER_uninterpreted_ks(i);
+        ks_pos += job->msg_len_to_cipher_in_bytes;
+        return job;
+}
+#endif
 void force_memset_zero(void *p, const size_t n) { (void) p; (void) n; }
 void memcpy_fn_sse_16(void *dst, const void *src, const size_t size) { for (size_t i = 0; i < size && i < 17; i++) ((uint8_t *) dst)[i] = ((const uint8_t *) src)[i]; }
 /* kernels of the other variants / paths are not reachable from the SSE entry points used here */
@@ -81,6 +108,21 @@ main(void)
                 __CPROVER_assume(seg[s] <= MAXSEG);
                 if (cfg_seg[s] >= 0) __CPROVER_assume(seg[s] == (size_t) cfg_seg[s]);
         }
+#ifdef JOBPATH
+        /* the single-job entry point (IMB_CIPHER_CHACHA20_POLY1305 / IMB_AUTH_CHACHA20_POLY1305) on the same work item */
+        static IMB_JOB job;
+        __CPROVER_havoc_object(&job);
+        for (int s = 0; s < NSEG; s++) total += seg[s];
+        job.cipher_direction = enc ? IMB_DIR_ENCRYPT : IMB_DIR_DECRYPT;
+        job.src = in; job.dst = out; job.cipher_start_src_offset_in_bytes = 0; job.hash_start_src_offset_in_bytes = 0;
+        job.msg_len_to_cipher_in_bytes = total; job.msg_len_to_hash_in_bytes = total;
+        job.enc_keys = key; job.dec_keys = key; job.iv = iv; job.iv_len_in_bytes = 12;
+        job.u.CHACHA20_POLY1305.aad = aad; job.u.CHACHA20_POLY1305.aad_len_in_bytes = aad_len;
+        job.auth_tag_output = tag; job.auth_tag_output_len_in_bytes = 16;
+        IMB_JOB *rj = aead_chacha20_poly1305_sse((IMB_MGR *) 0, &job);
+        assert(rj == &job && job.status == IMB_STATUS_COMPLETED);
+        const size_t tag_len = 16;
+#else
         init_chacha20_poly1305_sse(key, &ctx, iv, aad, aad_len);
         for (int s = 0; s < NSEG; s++) {
                 if (enc)
@@ -92,6 +134,7 @@ main(void)
         const size_t tag_len = nondet_size();
         __CPROVER_assume(tag_len >= 1 && tag_len <= 16);
         finalize_chacha20_poly1305_sse(&ctx, tag, tag_len);
+#endif
 
         assert(poly_key_ok);
         assert(ks_pos == total);
